@@ -277,12 +277,12 @@ from acryo import TomogramSimulator, Molecules
 rng = np.random.default_rng(0)
 tmpl = rng.random((5, 5, 5)).astype(np.float32)
 ok = True
-for pos in ([[10, 10, 10]], [[10, 10, 10], [10, 20, 14], [12, 14, 22]]):
-    sim = TomogramSimulator(order=1, scale=1.0)
+for scale, pos in ((1.0, [[10, 10, 10]]), (1.0, [[10, 10, 10], [10, 20, 14], [12, 14, 22]]), (0.5, [[30, 8, 8], [4, 8, 6]])):
+    sim = TomogramSimulator(order=1, scale=scale)
     sim.add_molecules(Molecules(np.array(pos, float)), tmpl)
-    t3 = sim.simulate((24, 32, 32)); p2 = sim.simulate_2d((32, 32))
+    t3 = sim.simulate((24 if scale == 1.0 else 70, 32, 32)); p2 = sim.simulate_2d((32, 32))
     n = len(pos)
-    print(n, "molecule(s): total density 3-D", round(float(t3.sum()), 3), "| 2-D", round(float(p2.sum()), 3), "| expected", round(float(n * tmpl.sum()), 3))
+    print(n, "molecule(s), scale", scale, ": total density 3-D", round(float(t3.sum()), 3), "| 2-D", round(float(p2.sum()), 3), "| expected", round(float(n * tmpl.sum()), 3))
     ok = ok and np.allclose(t3.sum(axis=0), p2, atol=1e-3) and abs(float(t3.sum()) - n * float(tmpl.sum())) < 1e-2
 print("clause holds natively (every molecule is pasted; 2-D is the z-projection of 3-D):", ok)
 print("CONFIRMED" if not ok else "NOT-CONFIRMED"); sys.exit(1 if not ok else 0)
@@ -309,7 +309,11 @@ print("CONFIRMED" if not ok else "NOT-CONFIRMED"); sys.exit(1 if not ok else 0)
 
 _NCOMP = "self._components['a'].molecules._pos.shape[0]"
 for _meth, _params, _req, _extra in (
-        ("_simulate", dict(shape=_SHAPE), [], {}), ("simulate_2d", dict(shape=T.Tuple(T.Int(lo=1), T.Int(lo=1))), [], {}),
+        ("_simulate", dict(shape=_SHAPE), [], {}), ("simulate_2d", dict(shape=T.Tuple(T.Int(lo=1), T.Int(lo=1))), [],
+         # the virtual 3-D volume that is projected: the requested plane, and tall enough that no fragment is cut at the top
+         {"projected_volume_holds_every_fragment":
+          "forall(lambda i: task_arg(i, 4)[1] == shape[0] and task_arg(i, 4)[2] == shape[1] and "
+          "task_arg(i, 4)[0] >= task_arg(i, 2)[0], (0, %s))" % "self._components['a'].molecules._pos.shape[0]"}),
         ("_simulate_with_color", dict(shape=_SHAPE, colormap=T.Arr(2, "real")),
          ["colormap.shape[1] == 3", "colormap.shape[0] == " + _NCOMP],
          {"colour_i_is_row_i_of_the_colormap":
